@@ -209,3 +209,32 @@ Proof.
     cbn [In] in Hin. destruct Hin as [E | [E | []]]; rewrite <- E; lia. }
   unfold capAt, capOf. cbn [wcfg c_plans c_maxSize planFor snd Z.gtb Z.compare andb]. unfold overhead, upSealerOverhead. lia.
 Qed.
+
+Lemma random_fits_chrome115 : random_fits (wcfg (BRandom [(1215, 3, 9, 9)]) [] 1 [] 0) [(1215, 3, 9, 9)].
+Proof.
+  intros i off rf Hi Hoff Hrf.
+  assert (Erf : rf = (1215, 3, 9, 9)).
+  { unfold rfFor in Hrf. cbn [length Z.of_nat Pos.of_succ_nat] in Hrf.
+    destruct (Z.ltb_spec i 0); [lia|].
+    destruct (Z.geb_spec i 1) as [Hg|Hg]; cbn [Z.sub Z.to_nat nth] in Hrf.
+    - inversion Hrf. reflexivity.
+    - replace i with 0 in Hrf by lia. cbn in Hrf. inversion Hrf. reflexivity. }
+  subst rf. clear Hrf.
+  cbn [fst snd planFor wcfg c_plans].
+  split; [reflexivity|]. split; [lia|]. split; [lia|].
+  unfold maxCryptoData. change (vlen 1215) with 2.
+  pose proof (vlen_nonneg (off + 1215)) as H1. pose proof (vlen_le8 (off + 1215)) as H2.
+  set (w := vlen (off + 1215)) in *. change (Z.max 9 1) with 9.
+  assert (En : Z.max (1215 - 9 - 3 - 9 * (1 + w + 2)) 0 = 1215 - 9 - 3 - 9 * (1 + w + 2)) by lia.
+  rewrite En. set (n := 1215 - 9 - 3 - 9 * (1 + w + 2)) in *.
+  assert (Hn : 1104 <= n <= 1176) by (subst n; lia).
+  split; [lia|].
+  assert (Hvn : vlen n = 2) by (apply vlen_mid; lia).
+  rewrite Hvn.
+  pose proof (vlen_nonneg off). pose proof (vlen_le8 off).
+  assert (Hh : 19 <= hdrOf (wcfg (BRandom [(1215, 3, 9, 9)]) [] 1 [] 0) i <= 20).
+  { unfold hdrOf, pnLenOf, hdrLen. cbn [wcfg c_dcid c_scid c_tokLen c_lens c_single c_ipn c_first].
+    change (vlen 0) with 1.
+    rewrite peekPnLen_single by discriminate. lia. }
+  unfold capAt, capOf. cbn [wcfg c_plans c_maxSize planFor snd Z.gtb Z.compare andb]. unfold overhead, upSealerOverhead. lia.
+Qed.
